@@ -415,6 +415,14 @@ type KeyValue interface {
 	Watch(key string, opts ...interface{}) (Watcher, error)
 }
 
+// RevisionDeleter is an optional extension of KeyValue: a store that can
+// delete a key only if its latest revision is still the given one (the NATS
+// adapter can). A graceful shutdown with DeleteKey uses it to make sure that
+// the record it removes is the one it has just looked at.
+type RevisionDeleter interface {
+	DeleteRevision(key string, rev uint64) error
+}
+
 // JetStreamContext is an abstraction over NATS JetStream context.
 // This interface enables testing with mocks.
 type JetStreamContext interface {
@@ -454,6 +462,10 @@ func (a *natsKeyValueAdapter) Get(key string) (Entry, error) {
 
 func (a *natsKeyValueAdapter) Delete(key string) error {
 	return a.kv.Delete(key)
+}
+
+func (a *natsKeyValueAdapter) DeleteRevision(key string, rev uint64) error {
+	return a.kv.Delete(key, nats.LastRevision(rev))
 }
 
 func (a *natsKeyValueAdapter) Watch(key string, opts ...interface{}) (Watcher, error) {
